@@ -97,6 +97,13 @@ Section Bridge.
   Definition bounds_text (ab : option Z * option Z) (step : string) : string :=
     "[" ++ ropt (fst ab) ++ ":" ++ ropt (snd ab) ++ ":" ++ step ++ "]".
 
+  Lemma render_item_otext o is_stop : opt_ok o ->
+    render_item c10_has c10_locate (otext o) is_stop = render_part (otext o) is_stop.
+  Proof.
+    destruct o as [a|]; cbn [opt_ok otext]; [|intros _; reflexivity].
+    intros [_ Hc]. apply render_item_tick. exact (proj1 (bt_facts a Hc)).
+  Qed.
+
   Lemma render_parts_are_bounds oa ob : opt_ok oa -> opt_ok ob ->
     match render_part (otext oa) false with
     | Raise e => Raise e
@@ -122,6 +129,7 @@ Section Bridge.
   Proof.
     intros Ha Hb. destruct (otext_facts oa Ha) as [A1 A2]. destruct (otext_facts ob Hb) as [B1 B2].
     rewrite (resolve_group_slice2 c10_has c10_locate _ _ A1 B1). rewrite A2, B2.
+    rewrite (render_item_otext oa false Ha), (render_item_otext ob true Hb).
     pose proof (render_parts_are_bounds oa ob Ha Hb) as H.
     destruct (render_part (otext oa) false) as [a|e1].
     - destruct (render_part (otext ob) true) as [b|e2];
@@ -138,6 +146,7 @@ Section Bridge.
   Proof.
     intros Ha Hb Hs. destruct (otext_facts oa Ha) as [A1 A2]. destruct (otext_facts ob Hb) as [B1 B2].
     rewrite (resolve_group_slice3 c10_has c10_locate _ _ _ A1 B1 Hs). rewrite A2, B2.
+    rewrite (render_item_otext oa false Ha), (render_item_otext ob true Hb).
     pose proof (render_parts_are_bounds oa ob Ha Hb) as H.
     destruct (render_part (otext oa) false) as [a|e1].
     - destruct (render_part (otext ob) true) as [b|e2];
